@@ -79,6 +79,14 @@ class Gen:
         self.tensors = []  # for reference sharing
         self.doms = {}
         self.varkind = {}
+        like = o.get("like")
+        if like is not None:
+            self.partitions = like.partitions
+            self.varkind = like.varkind
+            self.doms = like.doms
+            self.ptypes = like.ptypes
+        else:
+            self.ptypes = {}
         self.desc = {"kinds": [], "sums": 0, "prods": 0, "wkinds": [], "arity": []}
 
     # ---- parameters ----
@@ -196,7 +204,9 @@ class Gen:
         rng = self.rng
         key = tuple(vs)
         if self.o.get("sd", True) and key in self.partitions:
-            return self.partitions[key]
+            parts = list(self.partitions[key])
+            rng.shuffle(parts)  # same split, arbitrary input order
+            return parts
         vs = list(vs)
         rng.shuffle(vs)
         nparts = 2 if len(vs) < 3 or rng.random() < 0.6 else 3
@@ -218,13 +228,15 @@ class Gen:
             Ki = K if rng.random() < 0.5 else rng.choice([1, 2, 3])
             il = self.add(self.input_layer(vs[0], Ki, kind))
             out = il
-            if Ki != K or rng.random() < 0.3:
+            if Ki != K or rng.random() < 0.3 or o.get("regular"):
                 out = self.sum([il], Ki, K)
             self.memo[key] = out
             return out
         prod = o.get("prod", "any")
         n_alt = 1 if rng.random() < 0.6 else rng.randint(2, o.get("max_alt", 3))
         ptype = rng.choice(["had", "kron"]) if prod == "any" else prod
+        if o.get("regular"):
+            ptype = self.ptypes.setdefault(tuple(vs), ptype)
         parts0 = self.partition(vs)
         arity = len(parts0)
         if ptype == "kron":
@@ -245,7 +257,7 @@ class Gen:
                 pl = self.add(L.HadamardLayer(Kc, arity=arity), children)
             self.desc["prods"] += 1
             alts.append(pl)
-        if n_alt == 1 and pu == K and rng.random() < 0.35 and not top:
+        if n_alt == 1 and pu == K and rng.random() < 0.35 and not top and not o.get("regular"):
             out = alts[0]
         else:
             out = self.sum(alts, pu, K)
